@@ -185,14 +185,14 @@ def reference(kind, content, refdir, stats):
 # --------------------------------------------------------------------------------------
 ENTRIES = ['client', 'client_params', 'cli', 'main_argv', 'hip']
 OUT_FORMS = ['absent', 'rel', 'rel_nested', 'rel_nosuffix', 'rel_oneletter', 'rel_repeated', 'abs', 'abs_nosuffix',
-             'rel_tilde', 'rel_tildedir', 'rel_symlink', 'rel_dotdot', 'rel_dot', 'rel_upper', 'rel_dotted', 'rel_txt', 'rel_linkdotdot']
+             'rel_tilde', 'rel_tildedir', 'rel_symlink', 'rel_dotdot', 'rel_dot', 'rel_upper', 'rel_dotted', 'rel_txt', 'rel_linkdotdot', 'rel_dash']
 CWD_DIRS = ['cwd0', 'cwd with space', 'deep/x/y/z', 'decoy', 'w']
 ARGVS = [['caller'], ['pytest', '-ra', '-q'], ['prog', 'a.txt', 'b.out'], []]
 OUT_NAMES = {'rel': 'result.out', 'rel_nested': 'sub dir/nested.out', 'rel_nosuffix': 'r', 'rel_oneletter': 'o.t',
              'rel_repeated': 'out.d/out', 'abs': 'res.abs.out', 'abs_nosuffix': 'absreport', 'rel_tilde': '~run1/out.txt',
              'rel_tildedir': '~/out.txt', 'rel_symlink': 'latest.out', 'rel_dotdot': '../sibling dir/out.txt', 'rel_dot': './dot.out',
              'rel_upper': 'Report.OUT', 'rel_dotted': 'v1.2/res.v3.out', 'rel_txt': 'case.txt',
-             'rel_linkdotdot': 'outlnk/../via.out'}
+             'rel_linkdotdot': 'outlnk/../via.out', 'rel_dash': '-dash.out'}
 FAULTS = ['enospc', 'eio', 'eacces', 'vanish', 'cancel']
 FAULT_AT = [1, 2, 3, 4, 5, 6, 7, 8, 10, 12, 15, 20, 25, 30, 40]
 # (the last one lives in the decoy directory under a name that also exists, relative to the package directory, in the
@@ -332,7 +332,7 @@ def gen_history(cs, templates, tier, force=None):
             else:
                 req = gen_request(cs, templates, slots[sl]['kind'], allow_slow)
             slots[sl]['req'] = req
-            ops.append({'op': 'write', 'slot': sl, 'req': req, 'kind': slots[sl]['kind']})
+            ops.append({'op': 'write', 'slot': sl, 'req': req, 'kind': slots[sl]['kind'], 'keep_mtime': cs.choose(4, 'keep_mtime') == 3})
             if slots[sl]['kind'] == 'hip' and theme == 'hip':
                 mk_run('hip', sl)
             elif slots[sl]['kind'] == 'geo' and (theme == 'cache' or cs.choose(2, 'rerun') == 1):
@@ -610,8 +610,19 @@ class Exec:
                 txt = request_text(op['req'], self.templates)
                 if self.contents.get(op['slot'], (None, None))[1] is not None:
                     self.probe('rewrite_of_used_input')
+                old_times = None
+                if op.get('keep_mtime'):
+                    try:
+                        st_ = K._real['os.stat'](p)
+                        old_times = (st_.st_atime, st_.st_mtime)
+                    except OSError:
+                        pass
                 with K._real['open'](p, 'w', encoding='utf-8') as f:
                     f.write(txt)
+                if old_times is not None:
+                    # the new content arrives with an OLD modification time (mv of a staged file, cp -p, rsync -t, tar x)
+                    os.utime(p, (old_times[0], old_times[1] - 3600.0))
+                    self.probe('rewrite_with_older_mtime')
                 self.contents[op['slot']] = (op['kind'], txt)
                 k.record('op:write', f"slot{op['slot']} {self.templates[op['req']['template']]['name']} {op['req']['tweaks']} {op['req']['poison']}")
             elif kind == 'delete':
@@ -726,6 +737,7 @@ class Exec:
             arg, report_path, json_path = self.out_paths(op['out'] if op['out'].startswith('abs') else 'abs', cwd)
         elif entry == 'cli':
             arg, report_path, json_path = self.out_paths(op['out'], cwd)
+        dashdash_first = entry == 'cli' and self.cs.choose(6, 'dashdash') == 5
         relinput = self.cs.choose(3, 'relinput') if entry == 'cli' else 0     # 0 absolute, 1 relative, 2 through a symlinked directory and '..'
         pre = {x: _file_sha(x) for x in (report_path, json_path) if x}
         calc0 = _state.get('calc_done', 0)
@@ -790,7 +802,14 @@ class Exec:
                     if not os.path.lexists(lnk):
                         os.symlink(sub, lnk)
                     inp = os.path.join(f"lnk{op['slot']}", '..', os.path.basename(path))
-                sys.argv = ['geophires_x', inp] + ([arg] if arg is not None else [])
+                # the conventional '--' separator: the only way to give an output name that begins with '-', and legal in front of
+                # the positional arguments in general
+                if op['out'] == 'rel_dash':
+                    sys.argv = ['geophires_x', inp, '--', arg]
+                elif dashdash_first:
+                    sys.argv = ['geophires_x', '--', inp] + ([arg] if arg is not None else [])
+                else:
+                    sys.argv = ['geophires_x', inp] + ([arg] if arg is not None else [])
                 try:
                     runpy.run_module('geophires_x', run_name='__main__', alter_sys=False)
                     outcome = 'ok'      # falling off the end of __main__ is exit status 0
